@@ -21,7 +21,7 @@ pub fn compile_and_search(text: &str, doc: &Value) -> Value {
 
 /// documents shared by the cases of a file ($EVAL_DOCS, written once by the TLC generator); a case refers to one by
 /// its 1-based index in field "d" and the observation carries the document itself
-fn pool_doc(i: usize) -> Option<Value> {
+pub fn pool_doc(i: usize) -> Option<Value> {
     thread_local! { static POOL: std::cell::RefCell<Option<Vec<Value>>> = std::cell::RefCell::new(None); }
     POOL.with(|p| {
         let mut p = p.borrow_mut();
@@ -42,7 +42,22 @@ pub fn run_case(case: &Value) -> Value {
         obs.as_object_mut().unwrap().insert("doc".into(), doc);
     }
     let text = uncps(&case["text"]);
-    let out = compile_and_search(&text, &obs["doc"]);
+    let out = if let Some(dt) = case.get("doctext") {
+        // the document is given as JSON text (number spellings, escapes, duplicate keys reach the library's own parser)
+        let dtext = uncps(dt);
+        guarded(|| {
+            let expr = match jmespath::compile(&text) {
+                Ok(e) => e,
+                Err(e) => return json!({"err":err_to_json(&e, &text),"stage":"compile"}),
+            };
+            match jmespath::Variable::from_json(&dtext) {
+                Ok(d) => outcome(&expr.search(d), &text),
+                Err(e) => json!({"docerr":ascii_cps(&e)}),
+            }
+        })
+    } else {
+        compile_and_search(&text, &obs["doc"])
+    };
     let m = obs.as_object_mut().unwrap();
     m.insert("out".into(), out);
     if case.get("want_ast").and_then(|x| x.as_bool()).unwrap_or(false) {
